@@ -242,6 +242,7 @@ func ruleC20(prog *Program, rep *Report) {
 	rulePlanWrite(prog, rep)
 	rulePairwiseLookup(prog, rep, 1, "asm")
 	ruleContextForward(prog, rep)
+	ruleLoopExit(prog, rep, 25, "asm")
 	// building a plan (NewPlan and what it calls) runs outside Execute's recover frame: an index panic there escapes
 	build := reachableFuncs(prog, "asm", "NewPlan")
 	if len(build) < 2 {
